@@ -12,6 +12,18 @@ import (
 )
 
 func main() {
+	if len(os.Args) > 2 && os.Args[1] == "leak" {
+		probeLeak(os.Args[2])
+		return
+	}
+	if len(os.Args) > 2 && os.Args[1] == "leak2" {
+		probeLeak2(os.Args[2])
+		return
+	}
+	if len(os.Args) > 2 && os.Args[1] == "det" {
+		probeDet(os.Args[2])
+		return
+	}
 	if len(os.Args) > 2 && os.Args[1] == "rawtrace" {
 		probeRawTrace(os.Args[2])
 		return
